@@ -2008,6 +2008,28 @@ func genCase(r *hx.Rand, i int) caseDesc {
 		d.Mode = "export"
 		d.ExLo = int64(r.Intn(20))
 		d.ExHi = d.ExLo + int64(r.Intn(20))
+		// window bounds on (or next to) timestamps the shard holds: a file's first / last time
+		// equal to the window's start / end is where the overlap tests change branch
+		var ts []int64
+		for _, o := range d.Ops {
+			for _, p := range o.Pts {
+				ts = append(ts, p.T)
+			}
+		}
+		if len(ts) > 0 && r.Chance(60) {
+			a := ts[r.Intn(len(ts))] + int64(r.Intn(3)-1)*int64(r.Intn(2))
+			b := ts[r.Intn(len(ts))] + int64(r.Intn(3)-1)*int64(r.Intn(2))
+			if a > b {
+				a, b = b, a
+			}
+			if a < 0 {
+				a = 0
+			}
+			if b < a {
+				b = a
+			}
+			d.ExLo, d.ExHi = a, b
+		}
 	}
 	return d
 }
@@ -2048,6 +2070,10 @@ func designed() []caseDesc {
 	ds = append(ds,
 		caseDesc{Mode: "export", Ops: base, ExLo: 0, ExHi: 10, CutMember: -1},
 		caseDesc{Mode: "export", Ops: base, ExLo: 2, ExHi: 2, CutMember: -1},
+		caseDesc{Mode: "export", Ops: base, ExLo: 0, ExHi: 1, CutMember: -1}, // window end == the file's first time
+		caseDesc{Mode: "export", Ops: base, ExLo: 2, ExHi: 7, CutMember: -1}, // window start == the file's last time
+		caseDesc{Mode: "export", Ops: two, ExLo: 0, ExHi: 1, CutMember: -1},
+		caseDesc{Mode: "export", Ops: two, ExLo: 2, ExHi: 3, CutMember: -1},
 		caseDesc{Mode: "export", Ops: two, ExLo: 0, ExHi: 10, CutMember: -1},
 		caseDesc{Mode: "export", Ops: base, ExLo: 1, ExHi: 2, CutMember: -1},                                                   // window == file range
 		caseDesc{Mode: "export", Ops: []op{w(pt{0, 0, 1, 2}, pt{1, 0, 10, 4}), snap}, ExLo: 4, ExHi: 5, CutMember: -1}, // window in a gap between blocks
